@@ -3,6 +3,8 @@
  *                               c,<reg>,<hexval>  SCPI_RegClearBits
  *                               e,<code> SCPI_ErrorPush   o SCPI_ErrorPop   k SCPI_ErrorClear   L *CLS handler
  *                               q0 *ESR? handler  q1 STAT:OPER:EVEN? handler  q2 STAT:QUES:EVEN? handler  r STAT:PRES handler
+ *                               a,<hexbits>,<0|1>   the application stores its own status-byte bits (0, 1, 4 = MAV):
+ *                                    SCPI_RegSet(STB, (STB & summary bits 2,3,5,7) | bits | (bit 6 kept if 1, cleared if 0))
  * Observation, one token per op:  <regs 0..9 as 4 hex digits joined by '.'>,<queue count>,<srq values /-joined or ->,<error callbacks /-joined or -> */
 #include "h_env.h"
 
@@ -22,6 +24,10 @@ void run_regs(const char *input) {
         if (sscanf(tok, "s,%u,%x", &reg, &val) == 2) SCPI_RegSet(&e.ctx, (scpi_reg_name_t) reg, (scpi_reg_val_t) val);
         else if (sscanf(tok, "b,%u,%x", &reg, &val) == 2) SCPI_RegSetBits(&e.ctx, (scpi_reg_name_t) reg, (scpi_reg_val_t) val);
         else if (sscanf(tok, "c,%u,%x", &reg, &val) == 2) SCPI_RegClearBits(&e.ctx, (scpi_reg_name_t) reg, (scpi_reg_val_t) val);
+        else if (sscanf(tok, "a,%x,%u", &val, &reg) == 2) {
+            unsigned cur = (unsigned) SCPI_RegGet(&e.ctx, SCPI_REG_STB);
+            SCPI_RegSet(&e.ctx, SCPI_REG_STB, (scpi_reg_val_t) ((cur & 0xAC) | (val & 0x13) | (reg ? (cur & 0x40) : 0)));
+        }
         else if (sscanf(tok, "e,%d", &code) == 1) SCPI_ErrorPush(&e.ctx, (int16_t) code);
         else if (tok[0] == 'o') { scpi_error_t err; SCPI_ErrorPop(&e.ctx, &err);
 #if USE_DEVICE_DEPENDENT_ERROR_INFORMATION && USE_MEMORY_ALLOCATION_FREE
@@ -91,6 +97,19 @@ void dom_regs(void) {
             if (h_mine_str(in)) run_regs(in);
         }
     }
+    /* the application's own status-byte bits (0, 1, 4 = MAV) with service request enabled for them: exhaustive short
+     * histories over a small alphabet of their own */
+    { static const char *al[] = { " s,1,10", " s,1,11", " s,1,30", " s,1,0", " s,1,44", " a,10,0", " a,10,1", " a,0,0", " a,0,1", " a,1,0", " a,13,1",
+          " b,0,10", " c,0,10", " b,0,1", " c,0,1", " b,0,40", " c,0,40", " s,2,20", " s,3,20", " e,-100", " o", " q0", " L" };
+      int na = (int)(sizeof al / sizeof al[0]), l2 = h_thorough ? 4 : 3;
+      for (len = 1; len <= l2; len++) {
+          total = 1; for (i = 0; i < len; i++) total *= (unsigned long) na;
+          for (idx = 0; idx < total; idx++) {
+              unsigned long r = idx; size_t n = (size_t) snprintf(in, sizeof in, "R 2");
+              for (i = 0; i < len; i++) { n += (size_t) snprintf(in + n, sizeof in - n, "%s", al[r % (unsigned long) na]); r /= (unsigned long) na; }
+              if (h_mine_str(in)) run_regs(in);
+          }
+      } }
     /* random walks over full 16-bit values */
     { unsigned long n = h_thorough ? 60000 : 6000;
       for (; n; n--) {
@@ -108,7 +127,8 @@ void dom_regs(void) {
                   case 9: k += (size_t) snprintf(in + k, sizeof in - k, " o"); break;
                   case 10: k += (size_t) snprintf(in + k, sizeof in - k, " k"); break;
                   case 11: k += (size_t) snprintf(in + k, sizeof in - k, " L"); break;
-                  case 12: k += (size_t) snprintf(in + k, sizeof in - k, " q0"); break;
+                  case 12: if (h_chance(40)) { k += (size_t) snprintf(in + k, sizeof in - k, " a,%x,%u", h_below(0x14) & 0x13, h_below(2)); break; }
+                           k += (size_t) snprintf(in + k, sizeof in - k, " q0"); break;
                   case 13: k += (size_t) snprintf(in + k, sizeof in - k, " q1"); break;
                   case 14: k += (size_t) snprintf(in + k, sizeof in - k, " q2"); break;
                   default: k += (size_t) snprintf(in + k, sizeof in - k, " r"); break;
